@@ -307,6 +307,9 @@ class Model:
         (wrap-around, float32 rounding).  Which of the two an implementation produces depends on how constants are
         typed, which the statement does not fix: compare() leaves out the elements on which the readings disagree.
         up="strong": stored dtype, constants of arithmetic nodes typed as numpy arrays (a third reading).
+        up="native_pf": stored dtype, Python-scalar constants, but the result of every parsed command widened to
+        float64 - what glue's parsed path does with a scalar (0-d view) result: np.sqrt(uint8) is float16, squared in
+        float16 by the array path and in float64 by the scalar path.
         up="float": every integer input read as float64 - differs from the integer readings only where int64
         arithmetic wraps around (the wrapped value is meaningless, and glue's scalar path for 0-d views of parsed
         commands computes in float there): such elements are left out as well."""
@@ -329,6 +332,8 @@ class Model:
                     # a command without attribute references yields a Python / numpy scalar; as an attribute it is a
                     # float array (an integer reading would only differ by int64 wrap-around and integer-power rules)
                     v = v.astype(float)
+                if n.desc[0] == "parsed" and up == "native_pf":
+                    v = v.astype(np.float64)
                 v = np.broadcast_to(v, self.shape)
             self._cache[key] = v
         return self._cache[key]
@@ -359,6 +364,8 @@ class Model:
                 raise RefRaises("non-real reference (%s)" % v.dtype)
             if n.desc[0] == "parsed" and not leaves(n.desc) and v.dtype.kind in "biu":
                 v = v.astype(float)
+            if n.desc[0] == "parsed" and up == "native_pf":
+                v = v.astype(np.float64)
             v = np.broadcast_to(v, np.broadcast_to(0, self.shape)[Ellipsis if view is None else view].shape)
         memo[key] = v
         return v
@@ -375,7 +382,7 @@ class Model:
         r0, r1 = get(0.0, True), get(PERT, True)
         alts = []
         if fl["has_narrow_input"]:
-            alts += [get(0.0, False), get(0.0, "strong")]
+            alts += [get(0.0, False), get(0.0, "strong"), get(0.0, "native_pf")]
             if narrow_pow:
                 # float32 pow results differ in the last place between numpy's scalar, strided and SIMD loops, and
                 # that can decide integer-ness of an exponent: also the native readings with every pow result moved
@@ -449,7 +456,7 @@ class Model:
         fl = fl or self.flags(nid)
         alts = []
         if fl["has_narrow_input"]:
-            alts += [self.val(nid, 0.0, up=False), self.val(nid, 0.0, up="strong")]
+            alts += [self.val(nid, 0.0, up=False), self.val(nid, 0.0, up="strong"), self.val(nid, 0.0, up="native_pf")]
         if fl["has_int_input"]:
             try:
                 alts.append(self.val(nid, 0.0, up="float"))
